@@ -130,14 +130,62 @@ def run_shipped(scenario: Path, work: Path, steps: int, trace_path: Path, *, wit
     return rp, tr
 
 
+def preload_requests(rp, reqs: List[Dict[str, Any]]):
+    """requests that are already waiting in the initial state (added through the public simulation_state_ops API, as a
+    co-simulation user or a test does)"""
+    import h3
+
+    from nrel.hive.model.request import Request
+    from nrel.hive.model.sim_time import SimTime
+    from nrel.hive.state.simulation_state import simulation_state_ops
+
+    sim = rp.s
+    for r in reqs:
+        res = sim.sim_h3_location_resolution
+        req = Request.build(request_id=r["id"], origin=h3.geo_to_h3(r["o"][0], r["o"][1], res),
+                            destination=h3.geo_to_h3(r["d"][0], r["d"][1], res), road_network=sim.road_network,
+                            departure_time=SimTime.build(int(r["dep"])), passengers=r.get("pax", 1), allows_pooling=False,
+                            fleet_id=r.get("fleet"), value=2.5)
+        sim = simulation_state_ops.add_request_safe(sim, req).unwrap()
+    return rp._replace(s=sim)
+
+
+def cosim_throttle(rp, tr: tracer.Tracer, rng: random.Random) -> Any:
+    """a co-simulation user throttles a plug between steps (Station.scale_charger_rate / set_charger_rate + modify_station)"""
+    from returns.result import Failure
+
+    from nrel.hive.state.simulation_state import simulation_state_ops
+
+    sim = rp.s
+    sid = rng.choice(sorted(sim.stations.keys()))
+    st = sim.stations[sid]
+    cid = rng.choice(sorted(st.state.keys()))
+    factory = rp.e.chargers[cid].rate
+    if rng.random() < 0.5:
+        res, what = st.scale_charger_rate(cid, rng.choice([0.1, 0.4, 0.75, 1.0])), "scale_charger_rate"
+    else:
+        res, what = st.set_charger_rate(cid, factory * rng.choice([0.08, 0.3, 0.6])), "set_charger_rate"
+    if isinstance(res, Failure):
+        return rp
+    sim2 = simulation_state_ops.modify_station_safe(sim, res.unwrap())
+    if isinstance(sim2, Failure):
+        return rp
+    sim2 = sim2.unwrap()
+    tr.write({"ev": "cosim", "what": what, "station": sid, "plug": cid, "d": tr.proj.advance(sim2, rp.e), "rep": []})
+    return rp._replace(s=sim2)
+
+
 def run_adv(seed: int, work: Path, trace_path: Path, *, steps: int = 40, mix: Optional[str] = None,
             with_route: bool = True, with_index: bool = False, world_kwargs: Optional[Dict[str, Any]] = None,
-            write_outputs: bool = False, kinds: Optional[List[str]] = None) -> Tuple[Any, tracer.Tracer, Dict[str, Any]]:
+            write_outputs: bool = False, kinds: Optional[List[str]] = None, p_instr: Optional[float] = None,
+            throttle: bool = False) -> Tuple[Any, tracer.Tracer, Dict[str, Any]]:
     """one generated world driven by adversarial generators around (or instead of) the built-in ones"""
     rng = random.Random(seed)
     w = adv.gen_world(rng, n_steps=steps, **(world_kwargs or {}))
     scen = world.write_world(work / f"world{seed}", w)
     rp = world.load(scen, work / "out", write_outputs=write_outputs, suffix=f"s{seed}", lazy=bool(w.get("lazy")))
+    if w.get("preload"):
+        rp = preload_requests(rp, w["preload"])
     tr = tracer.Tracer(trace_path, with_route=with_route, with_index=with_index, run_id=f"adv{seed}")
     emit = _emit_to(tr)
     mix = mix or rng.choice(["adv", "adv+builtin", "builtin+adv", "adv+builtin+adv"])
@@ -146,11 +194,21 @@ def run_adv(seed: int, work: Path, trace_path: Path, *, steps: int = 40, mix: Op
     for k, part in enumerate(parts):
         if part == "adv":
             gens.append(adv.Adversary(seed * 7 + k, label=f"Adversary{k}", emit=emit, kinds=kinds,
-                                      p_instr=rng.choice([0.25, 0.45, 0.7])))
+                                      p_instr=p_instr if p_instr is not None else rng.choice([0.25, 0.45, 0.7])))
         else:
             gens.extend(builtin_generators(rp.e, emit))
     rp = set_generators(rp, gens)
-    rp = crank_traced(rp, steps, tr, {"builtin": False, "scenario": f"adv{seed}", "mix": mix})
+    extra = {"builtin": "adv" not in parts, "scenario": f"adv{seed}", "mix": mix}
+    if throttle:
+        done = 0
+        while done < steps:
+            n = min(steps - done, rng.randint(3, 8))
+            rp = crank_traced(rp, n, tr, extra)
+            done += n
+            if done < steps:
+                rp = cosim_throttle(rp, tr, rng)
+    else:
+        rp = crank_traced(rp, steps, tr, extra)
     tr.close()
     return rp, tr, w
 
